@@ -233,6 +233,11 @@ def mk_pass(**kw):
 HEAVY = {"calls", "recursion", "incdec", "compound", "nested_loops", "long_arith", "ulong_arith", "mixed_width"}
 
 
+# programs whose address arithmetic multiplies by constants: with SYMBOLIC constants the obligations become
+# symbolic x symbolic products under array reads, which z3 does not decide in reasonable time
+NO_SYMCONST = {"global_array", "local_array", "store_load_alias_store", "pointer_arg", "struct", "store_narrowload_store"}
+
+
 def jobs_for(prop, tier, seed):
     js = []
     progs = sorted(p for p in cprogs.PROGS if tier != "quick" or p not in HEAVY)
@@ -247,14 +252,14 @@ def jobs_for(prop, tier, seed):
             singles = SINGLE
             levels = ("1", "2", "s", "3")
         for nm in singles:
-            if nm in symc:
+            if nm in symc and p not in NO_SYMCONST:
                 js.append(("mk_pass", dict(prop=prop, prog=p, config=f"pass:{nm}", symconst=True)))
-            if nm not in symc or tier != "quick":
+            if nm not in symc or tier != "quick" or p in NO_SYMCONST:
                 js.append(("mk_pass", dict(prop=prop, prog=p, config=f"pass:{nm}", symconst=False)))
         for lvl in levels:
             js.append(("mk_pass", dict(prop=prop, prog=p, config=f"level:{lvl}", symconst=False)))
         js.append(("mk_pass", dict(prop=prop, prog=p, config="seq:Mem2RegPromotor+ConstantFolder+CJumpPass+CleanPass",
-                                   symconst=(tier != "quick"))))
+                                   symconst=(tier != "quick" and p not in NO_SYMCONST))))
     # IR-level CFG skeleton family (phis, joins, self loops, double edges): CFG-rewriting passes + pipeline
     for nm in irprogs.names(tier, seed):
         for cfg in ("pass:CleanPass", "level:2", "seq:Mem2RegPromotor+ConstantFolder+CJumpPass+CleanPass") if tier == "quick" \
